@@ -800,6 +800,65 @@ func ruleC17(r *Run, p *Program, rule string) {
 			}
 		}
 	}
+	// the in-memory file grows by appending zeroes whenever the new size exceeds the logical size (not merely the capacity)
+	if tf := p.Fn("(*fs.memFile).truncate"); r.anchor(rule+".size-bookkeeping", "(*fs.memFile).truncate", tf != nil) {
+		r.fn(funcKey(tf))
+		okg := false
+		instrsOf(tf, func(in ssa.Instruction) {
+			c, ok := in.(*ssa.Call)
+			if !ok {
+				return
+			}
+			if b, ok := c.Call.Value.(*ssa.Builtin); ok && b.Name() == "append" {
+				okg = controlledBy(tf, c, func(cd *Cond) bool {
+					if cd.Op != token.GTR || !cd.Pos {
+						return false
+					}
+					_, isParam := strip(cd.X).(*ssa.Parameter)
+					return isParam && isFieldLoad(cd.Y, "fs.memFile.size")
+				})
+			}
+		})
+		// and no growth path that only reslices: a Slice of f.buf with a high bound under "size > f.size"
+		resliceGrow := false
+		instrsOf(tf, func(in ssa.Instruction) {
+			sl, ok := in.(*ssa.Slice)
+			if !ok || !isFieldLoad(sl.X, "fs.memFile.buf") {
+				return
+			}
+			if !controlledBy(tf, sl, func(cd *Cond) bool {
+				// reachable only when size <= f.size
+				if cd.Op != token.GTR || cd.Pos {
+					return false
+				}
+				_, isParam := strip(cd.X).(*ssa.Parameter)
+				return isParam && isFieldLoad(cd.Y, "fs.memFile.size")
+			}) {
+				resliceGrow = true
+			}
+		})
+		r.check(okg && !resliceGrow, rule+".size-bookkeeping", "(*fs.memFile).truncate:zero-fill", p.Pos(tf.Pos()), "growing the in-memory file appends zero bytes whenever the new size exceeds the logical size; reslicing is used only to shrink", "the in-memory file can grow by reslicing its buffer (when the capacity allows) instead of appending zeroes: after a shrink (recovery truncating a torn tail) and a later extension the old bytes reappear, where the OS file systems return zeroes")
+	}
+	// mapping growth: mremap doubles once per growth, so one write must never more than double the file: the initial
+	// mapping has to be at least as large as the largest single write (a maximal record)
+	{
+		c, ok := p.FS.Types.Scope().Lookup("initialMmapSize").(*types.Const)
+		mk, ok1 := constVal(p, "MaxKeyLength")
+		mv, ok2 := constVal(p, "MaxValueLength")
+		if r.anchor(rule+".mapping-covers-file", "constants initialMmapSize, MaxKeyLength, MaxValueLength", ok && ok1 && ok2) {
+			loops := false
+			if mf := p.Fn("(*fs.osMMapFile).mremap"); mf != nil {
+				instrsOf(mf, func(in ssa.Instruction) {
+					if bo, ok := in.(*ssa.BinOp); ok && bo.Op == token.MUL && inCycle(bo.Block()) {
+						loops = true
+					}
+				})
+			}
+			step := constant.BinaryOp(constant.BinaryOp(mk, token.ADD, mv), token.ADD, constant.MakeInt64(10+512))
+			okc := loops || constant.Compare(c.Val(), token.GEQ, step)
+			r.check(okc, rule+".mapping-covers-file", "fs.initialMmapSize", p.Pos(c.Pos()), "the initial mapping ("+c.Val().ExactString()+" bytes) is at least one maximal record, so the single doubling in mremap always covers the file after a write", "the initial mapping ("+c.Val().ExactString()+" bytes) is smaller than a maximal record while mremap doubles the mapping only once per growth: after one large write the mapping is shorter than the file, Slice (which trusts the logical size) indexes past it and reads panic on the mapped file system only")
+		}
+	}
 	// Slice guards
 	for _, s := range []struct{ typ, size, data string }{{"osMMapFile", "fs.osMMapFile.size", "fs.osMMapFile.data"}, {"memFile", "fs.memFile.size", "fs.memFile.buf"}} {
 		key := "(*fs." + s.typ + ").Slice"
